@@ -141,7 +141,8 @@ def run_shard(params, which=None):
     which = which or WHICH
     logging.disable(logging.CRITICAL)
     sh = Shard(params)
-    if which == 'c02':
+    free = params['shard'] % 8 == 7        # 2 of 16 shards: the same worlds with freely running threads (bytecode-level preemption)
+    if which == 'c02' and not free:
         try:
             step_orders(sh, params)
         except Exception:
@@ -160,6 +161,9 @@ def run_shard(params, which=None):
         mode = ('sticky', 'sticky', 'pct', 'park', 'sticky', 'park', 'pct', 'park')[i % 8]
         seed = (s0 + i * 104729) & 0x7fffffff
         kw = dict(packer=packer)
+        if free:
+            mode = 'free'
+            sh.count('free_running_worlds')
         if mode == 'sticky':
             kw['stick'] = rnd.choice([0.5, 0.9, 0.97])
         elif mode == 'pct':
